@@ -338,6 +338,17 @@ pub fn exec_plan_main(check: &dyn Check) -> i32 {
         }
     };
     let mut c = Counters::default();
+    // history wrapper: plans executed earlier by the same process (their outcomes are ignored); used when a
+    // violation depends on state the library keeps across operations (statics, thread-locals)
+    let plan = if let Some(h) = plan.get("__history").and_then(|h| h.as_array()) {
+        for hp in h {
+            let mut scratch = Counters::default();
+            let _ = check.exec(hp, &mut scratch);
+        }
+        plan["__plan"].clone()
+    } else {
+        plan
+    };
     match check.exec(&plan, &mut c) {
         Ok(o) => {
             println!("X {}", json!({"violation": o.violation, "trace": format!("{:016x}", o.trace)}));
@@ -485,6 +496,61 @@ pub fn check_main(check: &dyn Check, tier: Tier, seed: u64, nw: u64) -> i32 {
         reported.push(key);
         nviol += 1;
         let budget = if nviol == 1 { 300 } else { 60 };
+        let same = |r: &Result<Option<Violation>, String>| matches!(r, Ok(Some(v2)) if v2.oracle == f.violation.oracle && v2.signature == f.violation.signature);
+        // a violation seen inside a batch must reproduce from its plan alone in a fresh process. If it does not,
+        // it depends on what the same worker process executed before it: re-run it behind that history, shrink the
+        // history, and report the pair as the replay file. If even that does not reproduce, the run is not a
+        // function of its plan: a harness error, never a violation.
+        if f.violation.oracle != "hang" && f.violation.oracle != "abort" && !same(&exec_in_subprocess(check.id(), &f.plan)) {
+            let all: Vec<u64> = (0..f.run).filter(|r| r % nw == f.run % nw).collect();
+            let mut hist: Option<Vec<Value>> = None;
+            for take in [16usize, 256, 4096, usize::MAX] {
+                let from = all.len().saturating_sub(take);
+                let h: Vec<Value> = all[from..].iter().map(|r| plan_for(check, &fixed, seed, *r, tier)).collect();
+                if same(&exec_in_subprocess(check.id(), &json!({"__history": h, "__plan": f.plan}))) {
+                    hist = Some(h);
+                    break;
+                }
+                if from == 0 {
+                    break;
+                }
+            }
+            let Some(mut h) = hist else {
+                eprintln!("HARNESS-ERROR: run {} reported {} inside the batch but neither its plan alone nor its plan after the worker's earlier plans reproduces it: the run is not a function of its plan", f.run, f.violation.oracle);
+                return 2;
+            };
+            // shrink the history: drop chunks while the violation persists
+            let mut execs = 0;
+            let mut chunk = h.len().div_ceil(2).max(1);
+            while !h.is_empty() && execs < 200 {
+                let mut i = 0;
+                let mut removed = false;
+                while i < h.len() && execs < 200 {
+                    let mut cand = h.clone();
+                    cand.drain(i..(i + chunk).min(h.len()));
+                    execs += 1;
+                    if same(&exec_in_subprocess(check.id(), &json!({"__history": cand, "__plan": f.plan}))) {
+                        h = cand;
+                        removed = true;
+                    } else {
+                        i += chunk;
+                    }
+                }
+                if chunk == 1 {
+                    if !removed {
+                        break;
+                    }
+                } else {
+                    chunk = chunk.div_ceil(2);
+                }
+            }
+            let wrapped = json!({"__history": h, "__plan": f.plan});
+            let path = write_replay(check.id(), seed, f.run, tier, &wrapped, &f.violation, true, None);
+            println!("violation: run={} oracle={} detail={} [does not reproduce from its own plan in a fresh process, only after {} earlier plan(s) of the same process: the library keeps state across operations] (minimiser executions: {execs})", f.run, f.violation.oracle, f.violation.detail, h.len());
+            println!("VIOLATION property={} replay={path}", check.id());
+            exit = 1;
+            continue;
+        }
         let (min_plan, execs) = if f.violation.oracle == "hang" { (f.plan.clone(), 0) } else { minimise(check, &f.plan, &f.violation, budget) };
         // confirm the minimised plan in a fresh process
         let (final_plan, minimised) = match exec_in_subprocess(check.id(), &min_plan) {
